@@ -90,6 +90,21 @@ pub fn finish_case(id: &str, log: &RunLog, w: &crate::world::World, out: &mut Ca
     }
     out.states.sort_unstable();
     out.states.dedup();
+    // workload facts common to all checks
+    let mut stalls = 0u64;
+    let mut stalls_inside = 0u64;
+    for e in &w.events {
+        if let crate::world::Ev::GateHit { conn, offset } = e {
+            stalls += 1;
+            if w.conns[*conn].in_pkts.iter().any(|p| p.start < *offset && *offset < p.end) {
+                stalls_inside += 1;
+            }
+        }
+    }
+    if stalls > 0 {
+        out.count("inbound_stalls_hit", stalls);
+        out.count("inbound_stalls_inside_a_packet", stalls_inside);
+    }
     if verbose {
         for l in render(log, w, 4000) {
             println!("{}", l);
@@ -471,7 +486,9 @@ fn wrap_script(r: &mut Rng, _index: u64, _tier: Tier) -> (CaseCfg, Vec<Step>) {
 }
 
 fn general(_r: &mut Rng) -> Profile {
-    Profile::default()
+    let mut p = Profile::default();
+    p.w_gate = 1;
+    p
 }
 
 fn c01_cancel_heavy(r: &mut Rng) -> Profile {
@@ -488,6 +505,7 @@ fn c01_cancel_heavy(r: &mut Rng) -> Profile {
     if r.chance(1, 2) {
         p.keepalive_choices = vec![1, 2, 10, 60];
         p.w_advance = 8;
+        p.w_gate = 2;
     }
     p
 }
@@ -569,6 +587,7 @@ fn acks_heavy(r: &mut Rng) -> Profile {
 fn inbound_heavy(r: &mut Rng) -> Profile {
     let mut p = Profile::default();
     p.name = "inbound-heavy";
+    p.w_gate = 4;
     p.w_bpublish = 40;
     p.w_bpubrel = 6;
     p.w_bstale = 0;
@@ -641,6 +660,7 @@ fn tiny_arena(r: &mut Rng) -> Profile {
 fn keepalive_mix(r: &mut Rng) -> Profile {
     let mut p = Profile::default();
     p.name = "keepalive-mix";
+    p.w_gate = 3;
     p.keepalive_choices = vec![1, 2, 3, 9, 10, 60];
     p.ska_choices = vec![None, None, Some(1), Some(5)];
     p.ping_modes = vec![AckMode::Immediate, AckMode::Delay(3_000_000), AckMode::Delay(4_999_999), AckMode::Never];
